@@ -302,3 +302,13 @@ Lemma litmus_table :
 Proof. vm_compute. repeat split. Qed.
 Lemma litmus_iff f1 f2 : lost_wakeup_possible f1 f2 = negb (f1 && f2).
 Proof. destruct f1, f2; vm_compute; reflexivity. Qed.
+
+(* claims of the only queued item: exactly one claimant wins iff both claims are atomic compare-and-swaps *)
+Lemma double_claim_table :
+  double_claim_possible ClaimCAS ClaimCAS = false /\
+  double_claim_possible ClaimCheckThenStore ClaimCAS = true /\ double_claim_possible ClaimCAS ClaimCheckThenStore = true /\
+  double_claim_possible ClaimCheckThenStore ClaimCheckThenStore = true /\
+  double_claim_possible ClaimUnknown ClaimCAS = true /\ double_claim_possible ClaimCAS ClaimUnknown = true.
+Proof. vm_compute. repeat split. Qed.
+Lemma double_claim_iff o t : double_claim_possible o t = negb (match o, t with ClaimCAS, ClaimCAS => true | _, _ => false end).
+Proof. destruct o, t; vm_compute; reflexivity. Qed.
